@@ -17,10 +17,14 @@ FOREIGN_LIB = {
         "__init__.py": "class Shape:\n    pass\n\n\nclass vector:\n    pass\n\n\nclass snake_case_cls:\n    pass\n",
         "core/__init__.py": "class Grid:\n    pass\n",
         "core/frame.py": "class Frame:\n    pass\n\n\nclass frame_two:\n    pass\n",
+        # a class that lives in a private module below a snake_case package (the layout of scikit-learn)
+        "linear_model/__init__.py": "",
+        "linear_model/_base.py": "class Regressor:\n    pass\n",
     },
 }
 FOREIGN_LIB_USE = (
-    "from frgnlib import Shape, vector, snake_case_cls\nfrom frgnlib.core import Grid\nfrom frgnlib.core.frame import Frame, frame_two\n\n\n"
+    "from frgnlib import Shape, vector, snake_case_cls\nfrom frgnlib.core import Grid\nfrom frgnlib.core.frame import Frame, frame_two\n"
+    "from frgnlib.linear_model._base import Regressor\n\n\ndef fits(r: Regressor) -> Regressor:\n    ...\n\n\n"
     "def flib(a: Shape, b: vector, c: Grid, d: Frame, e: frame_two, f: snake_case_cls) -> Shape:\n    ...\n\n\nclass FSub(Grid):\n    pass\n"
 )
 
